@@ -100,7 +100,11 @@ Catalogue == {
   Case("too-far-at-start", FixedBlock(1, << Ref(3, 1, FALSE) >>), "reject", "too-far"),
   \* a single distance code of one bit: the other one-bit pattern has no symbol
   Case("invalid-code", DynHdrFields(1, 1, 0, 19, DCl, << <<18, 54>>, <<1, 0>>, <<18, 127>>, <<18, 41>>, <<2, 0>>, <<2, 0>>, <<1, 0>> >>)
-                       \o << C(Canon(DLit)[65], 1), C(Canon(DLit)[257], 2), C(1, 1), F(0, 8) >>, "reject", "invalid-code")
+                       \o << C(Canon(DLit)[65], 1), C(Canon(DLit)[257], 2), C(1, 1), F(0, 8) >>, "reject", "invalid-code"),
+  \* the same followed by a proper end of block: a reader that maps the unassigned pattern to the only
+  \* symbol would accept this, and a writer has no way to spell it
+  Case("invalid-code-then-eob", DynHdrFields(1, 1, 0, 19, DCl, << <<18, 54>>, <<1, 0>>, <<18, 127>>, <<18, 41>>, <<2, 0>>, <<2, 0>>, <<1, 0>> >>)
+                       \o << C(Canon(DLit)[65], 1), C(Canon(DLit)[257], 2), C(1, 1), C(Canon(DLit)[256], 2) >>, "reject", "invalid-code")
 }
 
 \* bits of a field list, then zero padding to a whole byte
